@@ -74,6 +74,10 @@ class Var:
     bit_offset: int = 0             # 'field' only
     hidden: bool = False            # library-internal state (e.g. the add carry): exists already, is not declared by the program;
     #                                 a macro that does not name it as an operand promises nothing while it is nonzero
+    stale_ok: bool = False          # ... except this kind: a flag that DOCUMENTED macros leave set (the add/sub carry of the scalar
+    #                                 hex.add/hex.sub, set_carry, not_carry). "no stale carry leaks from one macro into the next": every
+    #                                 other macro must compute its documented function whatever the flag holds, and leaves it as it was
+    #                                 or clean (0)
 
     @property
     def bits_per_cell(self) -> int:
@@ -168,6 +172,8 @@ class Monitor:
         self.apps, self.variables, self.w, self.passes, self.value_plan, self.rng = apps, variables, w, passes, value_plan, rng
         self.keep_going = keep_going        # after a violation: record it, re-synchronise the model with memory and go on
         self.all_violations: List[Dict[str, Any]] = []
+        self.stale_alternatives: Dict[str, Tuple[int, ...]] = {}
+        self.stale_cases = 0                # applications checked while a documented flag (carry) was left set by an earlier macro
         self.memory_verified = False        # every variable was compared (value and non-data bits) at the last SYNC
         self.vars_by_name = {v.name: v for v in variables}
         self.addr = {v.name: labels[v.label or v.name] for v in variables}
@@ -233,8 +239,13 @@ class Monitor:
         """advance self.state by one application; returns the expected marker count (0 = fall through)."""
         v: Dict[str, int] = {}
         bound = set(app.binding.values())
+        self.stale_alternatives = {}
         for var in self.variables:
             if var.hidden and self.state[var.name] != 0 and var.name not in bound:
+                if var.stale_ok:
+                    self.stale_alternatives[var.name] = (self.state[var.name], 0)
+                    self.stale_cases += 1
+                    continue
                 return None  # dirty library state that this macro's documentation does not mention: nothing is promised
         for op in app.spec.var_operands():
             var = self.vars_by_name[app.binding[op.name]]
@@ -272,6 +283,9 @@ class Monitor:
                 else:
                     for var in self.variables:
                         got, pristine = self.read_var(memory, var)
+                        if pristine and got in self.stale_alternatives.get(var.name, ()):
+                            self.state[var.name] = got  # a stale flag the macro does not name: kept, or cleaned
+                            continue
                         if got != self.state[var.name] or not pristine:
                             role = self.role_of(app, var.name)
                             self.fail(app, role, f'{var.name} ({role}) = {got:#x}{"" if pristine else " (non-data bits disturbed)"}, '
